@@ -17,7 +17,6 @@ def gen_lock(items):
             return D(name + '_IS_BLOCKING', 1 if b.group(1) == 'true' else 0, dl)
         return f
     items.append(lock_blocking('INDEX_WRITER_LOCK'))
-    items.append(lock_blocking('META_LOCK'))
 
     def margin():
         return const(iw, 'MARGIN_IN_BYTES')
